@@ -1,5 +1,5 @@
 #!/usr/bin/env python3
-"""tools/benign_matrix.py [filter] - applies every behaviour-preserving refactoring under /verif/benign and /verif/benign2 to a scratch
+"""tools/benign_matrix.py [filter] - applies every behaviour-preserving refactoring under /verif/benign, /verif/benign2 and /verif/benign3 to a scratch
 copy of /repo HEAD (outside /repo and /verif, removed afterwards), runs every registered quick check against it and
 writes /verif/benign/MATRIX.json: for each refactoring the checks that did not exit 0 (expected: none, or the
 accepted 'analysis broken' cases listed in DESIGN.md section 14).  Exit status 1 if any check reports a violation."""
@@ -45,7 +45,7 @@ def run_one(item):
 def main():
     items = []
     base = os.path.join(VERIF, "benign")
-    for rnd, dname in (("", "benign"), ("2:", "benign2")):
+    for rnd, dname in (("", "benign"), ("2:", "benign2"), ("3:", "benign3")):
         bd = os.path.join(VERIF, dname)
         if not os.path.isdir(bd):
             continue
